@@ -810,18 +810,22 @@ fn build_deref_for_struct(
 
     let content = match kind {
         DeriveItemKind::Deref => {
-            let r = ref_operand(target_ty);
             quote! {
                 type Target = #target_ty;
-                fn deref(&self) -> & #r {
+                fn deref(&self) -> &Self::Target {
                     &self.#member
                 }
             }
         }
         DeriveItemKind::DerefMut => {
-            let r = ref_operand(target_ty);
+            // `Self::Target` comes from the `Deref` impl, which may be hand-written: it has to be the field's own type
+            // (no deref coercion of `&mut self.field`), which the local `__Is` bound checks.
             quote! {
-                fn deref_mut(&mut self) -> &mut #r {
+                fn deref_mut(&mut self) -> &mut Self::Target {
+                    trait __Is<__T: ?::core::marker::Sized> {}
+                    impl<__T: ?::core::marker::Sized> __Is<__T> for __T {}
+                    fn __assert<__A: ?::core::marker::Sized + __Is<__B>, __B: ?::core::marker::Sized>() {}
+                    __assert::<#target_ty, <Self as ::core::ops::Deref>::Target>();
                     &mut self.#member
                 }
             }
